@@ -59,6 +59,27 @@ fn main() {
         });
         return;
     }
+    if args[1] == "--find-near-q" {
+        // one-off search (results committed in src/revsecrets.rs): secrets `candidate(k)` whose SHA3-256(secret || 0), read
+        // as a little-endian integer, is >= q (not canonical) and agrees with q in its top <bits> bits.
+        // usage: --find-near-q <bits> <start> <count>
+        let bits: u32 = args[2].parse().unwrap();
+        let start: u64 = args[3].parse().unwrap();
+        let count: u64 = args[4].parse().unwrap();
+        let threads = 16u64;
+        std::thread::scope(|s| {
+            for t in 0..threads {
+                s.spawn(move || {
+                    let mut k = start + t;
+                    while k < start + count {
+                        if revsecrets::top_bits_shared_with_q(&revsecrets::candidate(k)) >= bits { println!("{} {}", k, revsecrets::top_bits_shared_with_q(&revsecrets::candidate(k))); }
+                        k += threads;
+                    }
+                });
+            }
+        });
+        return;
+    }
     let prop = args[1].clone();
     let mut tier = "quick".to_string();
     let mut seed: u64 = 1;
